@@ -30,6 +30,11 @@ func Init() {
 		log.SetOutput(io.Discard)
 		stdlog.SetOutput(io.Discard)
 		aggregator.InitMetrics()
+		// every connection pre-allocates 2x100000 slice headers (4.8 MB) and re-allocates half of that every 10s
+		// for as long as its keepSafe lives (Destination.Shutdown does not stop it); with thousands of short-lived
+		// destinations per process that is hundreds of MB of live heap and constant GC work.  Only the
+		// pre-allocation is lowered; the buffers grow on demand.
+		dest.VerifSetKeepSafeCap(64)
 	})
 }
 
